@@ -11,5 +11,6 @@ From MV Require Import Doc.Transforms.
 From MV Require Import Doc.Skel.
 From MV Require Import Doc.WF.
 From MV Require Import Doc.SkelCheck.
+From MV Require Import Doc.Backends.
 Extraction Language OCaml.
-Extraction "model.ml" N.succ N.to_nat render_doc render_xform faithful_check.
+Extraction "model.ml" N.succ N.to_nat render_doc render_xform faithful_check total_check xform_check agree_check.
